@@ -222,13 +222,13 @@ func loadHarvest() {
 
 // engGen produces cases: 70% random full-syntax ASTs (several inputs each), 30% harvested patterns.
 type engGen struct {
-	allowRTL bool
-	perPat   int
-	maxLen   int
-	rawInput bool // also produce string inputs with invalid UTF-8
-	biasFind bool // bias towards shapes the search modes recognise
+	allowRTL    bool
+	perPat      int
+	maxLen      int
+	rawInput    bool // also produce string inputs with invalid UTF-8
+	biasFind    bool // bias towards shapes the search modes recognise
 	biasRewrite bool // bias towards shapes the tree rewrites look for
-	queue    []engCase
+	queue       []engCase
 }
 
 func (g *engGen) next(rng *rand.Rand, i int) engCase {
@@ -348,7 +348,9 @@ func biasedAst(rng *rand.Rand, cfg gen.Config) *gen.Node {
 	case 4: // leading anchor
 		head = &gen.Node{Kind: gen.KSeq, Subs: []*gen.Node{{Kind: gen.KAnchor, Anchor: []string{"A", "G", "^", "z", "Z"}[rng.Intn(5)]}, lit(w())}}
 	case 16: // branches of one fixed length that end (or begin) in different anchors
-		anc := func() *gen.Node { return &gen.Node{Kind: gen.KAnchor, Anchor: []string{"z", "z", "Z", "$", "b", "B"}[rng.Intn(6)]} }
+		anc := func() *gen.Node {
+			return &gen.Node{Kind: gen.KAnchor, Anchor: []string{"z", "z", "Z", "$", "b", "B"}[rng.Intn(6)]}
+		}
 		ws := []string{"ab", "cd", "xy", "ba", "a1", "bc"}
 		br := func() *gen.Node {
 			if rng.Intn(4) == 0 {
